@@ -1725,9 +1725,10 @@ class InTablePhase(Phase):
     def insertText(self, token):
         # If we get here there must be at least one non-whitespace character
         # Do the table magic!
+        previous = self.tree.insertFromTable
         self.tree.insertFromTable = True
         self.parser.phases["inBody"].processCharacters(token)
-        self.tree.insertFromTable = False
+        self.tree.insertFromTable = previous
 
     def startTagCaption(self, token):
         self.clearStackToTableContext()
@@ -1783,9 +1784,10 @@ class InTablePhase(Phase):
     def startTagOther(self, token):
         self.parser.parseError("unexpected-start-tag-implies-table-voodoo", {"name": token["name"]})
         # Do the table magic!
+        previous = self.tree.insertFromTable
         self.tree.insertFromTable = True
         self.parser.phases["inBody"].processStartTag(token)
-        self.tree.insertFromTable = False
+        self.tree.insertFromTable = previous
 
     def endTagTable(self, token):
         if self.tree.elementInScope("table", variant="table"):
@@ -1809,9 +1811,10 @@ class InTablePhase(Phase):
     def endTagOther(self, token):
         self.parser.parseError("unexpected-end-tag-implies-table-voodoo", {"name": token["name"]})
         # Do the table magic!
+        previous = self.tree.insertFromTable
         self.tree.insertFromTable = True
         self.parser.phases["inBody"].processEndTag(token)
-        self.tree.insertFromTable = False
+        self.tree.insertFromTable = previous
 
     startTagHandler = _utils.MethodDispatcher([
         ("html", Phase.startTagHtml),
